@@ -846,9 +846,9 @@ fn parse_json_filter(input: &[u8], output: &mut [u8]) -> Result<(usize, usize), 
             // Burn the rest
             eat_colon_with_whitespace(input, &mut inpos)?;
             verify_char(input, b'[', &mut inpos)?;
-            burn_array(input, &mut inpos)?;
+            burn_array(input, &mut inpos, 0)?;
         } else {
-            burn_key_and_value(input, &mut inpos)?;
+            burn_key_and_value(input, &mut inpos, 0)?;
         }
     }
 
